@@ -242,7 +242,8 @@ class History:
 
     def both(self, line, observe=None):
         self.n += 1
-        line = dict(line, id=self.n)
+        # a private copy: generators keep editing their world / row dictionaries to track the backend's state
+        line = json.loads(json.dumps(dict(line, id=self.n)))
         self.impl.append(line)
         self.model.append(line)
         self.steps.append({k: v for k, v in line.items() if k not in ("world",)})
@@ -469,6 +470,11 @@ def run_c12(ctx, spec, out):
     out.extra_cov["histories"] = nh
 
 
+def modattr_list(mask):
+    """the list a core derives from the modified_attributes bit mask"""
+    return [n for bit, n in ((1, "notifications_enabled"), (2, "active_checks_enabled"), (32768, "custom_variable")) if mask & bit]
+
+
 def mutate_object(rng, schema, flags, table, row, now, kinds=None):
     """one backend-side change of a host/service; returns the column updates (what a real core would change together)"""
     kind = rng.choice(kinds or ["check", "check", "check", "ack", "depth", "flag", "modattr", "exec", "custom"])
@@ -485,15 +491,24 @@ def mutate_object(rng, schema, flags, table, row, now, kinds=None):
         c = rng.choice(["active_checks_enabled", "notifications_enabled"])
         ch = {c: 1 - int(row.get(c, 0) or 0)}
     elif kind == "modattr":
-        on = rng.random() < 0.6
-        ch = {"modified_attributes": 2 if on else 0, "modified_attributes_list": ["active_checks_enabled"] if on else []}
+        cur = int(row.get("modified_attributes", 0) or 0)
+        new = rng.choice([m for m in (0, 1, 2, 3) if m != (cur & 3)]) | (cur & 32768)
+        ch = {"modified_attributes": new, "modified_attributes_list": modattr_list(new)}
     elif kind == "exec":
         ch = {"is_executing": 1}
     elif kind == "custom":
-        # CHANGE_CUSTOM_*_VAR: the value changes together with the modified_attributes bit mask
+        # CHANGE_CUSTOM_*_VAR sets the custom-variable bit of modified_attributes (once) and bumps last_update.  The property's
+        # change alphabet is {check results, acknowledgements, downtime depth, enabled flags, modified attributes, running checks}: a bare
+        # edit of a value while the bit is set already changes no column the delta window or the periodic scan looks at on a backend
+        # without last_update, so it is generated only where the backend has that column
         names = row.get("custom_variable_names") or []
-        ch = {"custom_variable_values": [rng.choice(gen.CV_VALUES) for _ in names], "modified_attributes": rng.choice([32768, 32770]),
-              "modified_attributes_list": ["custom_variable"]}
+        cur = int(row.get("modified_attributes", 0) or 0)
+        if "HasLastUpdateColumn" in flags or not (cur & 32768):
+            new = cur | 32768
+            ch = {"custom_variable_values": [rng.choice(gen.CV_VALUES) for _ in names], "modified_attributes": new, "modified_attributes_list": modattr_list(new)}
+        else:
+            kind = "ack"
+            ch = {"acknowledged": 1 - int(row.get("acknowledged", 0) or 0)}
     if "HasLastUpdateColumn" in flags:
         ch["last_update"] = now
     cols = {c["name"] for c in worldgen.table_columns(schema, table, flags)}
@@ -519,6 +534,8 @@ def run_c03(ctx, spec, out):
                 if "last_update" in r:
                     r["last_update"] = r["last_check"]
                 r["is_executing"] = 0
+                if "modified_attributes_list" in r:
+                    r["modified_attributes_list"] = modattr_list(int(r.get("modified_attributes", 0) or 0))
                 r["check_period"] = "24x7"
                 r["notification_period"] = rng.choice(["24x7", "workhours"])
         cfg = {"update_interval": rng.choice([5, 10]), "update_offset": rng.choice([1, 3]), "max_parallel_peer_connections": 1, "backend_keepalive": False,
@@ -592,7 +609,7 @@ def run_c03(ctx, spec, out):
         final = [cid for cid in h.queries if cid not in before]
         for cid in final:
             sid = hs.query(h.queries[cid]["text"], [wb])
-            spec_pairs.append((cid, sid + 10**7 * (len(hists) + 1), h.queries[cid]))
+            spec_pairs.append((cid, sid + 10**7 * (len(hists) + 1), dict(h.queries[cid], extra=dict(h.queries[cid].get("extra") or {}, lines=[l for l in h.impl if l["id"] <= cid]))))
         # the spec stream gets ids in its own space
         for l in hs.model:
             l2 = dict(l)
